@@ -101,6 +101,7 @@ CONTROLS = [
     ("silent", "fill_bytes hand-written to the table (jitter)", rep("rand_jitter/src/lib.rs", "        impls::fill_bytes_via_next(self, dest)\n", '        let mut chunks = dest.chunks_exact_mut(8);\n        for chunk in &mut chunks {\n            chunk.copy_from_slice(&self.next_u64().to_le_bytes());\n        }\n        let tail = chunks.into_remainder();\n        let n = tail.len();\n        if n > 4 {\n            tail.copy_from_slice(&self.next_u64().to_le_bytes()[..n]);\n        } else if n > 0 {\n            tail.copy_from_slice(&self.next_u32().to_le_bytes()[..n]);\n        }\n'), ["C05", "C16"]),
     ("fire", "fill_bytes hand-written, 4-byte tail from next_u64", rep(X + "xoshiro256plusplus.rs", "        fill_bytes_via_next(self, dest);", '        let mut chunks = dest.chunks_exact_mut(8);\n        for chunk in &mut chunks {\n            chunk.copy_from_slice(&self.next_u64().to_le_bytes());\n        }\n        let tail = chunks.into_remainder();\n        let n = tail.len();\n        if n > 3 {\n            tail.copy_from_slice(&self.next_u64().to_le_bytes()[..n]);\n        } else if n > 0 {\n            tail.copy_from_slice(&self.next_u32().to_le_bytes()[..n]);\n        }'), ["C05"]),
     ("fire", "fill_bytes hand-written, 5-byte tail sliced from 4 bytes", rep(X + "xoshiro256plusplus.rs", "        fill_bytes_via_next(self, dest);", HWBAD5), ["C14", "C05"]),
+    ("fire", "memaccess index differs under feature=log (inside the loop)", rep("rand_jitter/src/lib.rs", "            mem[index] = mem[index].wrapping_add(1);\n", "            #[cfg(feature = \"log\")]\n            let index = index ^ 1;\n            mem[index] = mem[index].wrapping_add(1);\n"), ["C18"]),
     ("fire", "jitter fill_bytes straight from gen_entropy, half kept", rep("rand_jitter/src/lib.rs", "        impls::fill_bytes_via_next(self, dest)\n", '        let mut chunks = dest.chunks_exact_mut(8);\n        for chunk in &mut chunks {\n            chunk.copy_from_slice(&self.gen_entropy().to_le_bytes());\n        }\n        impls::fill_bytes_via_next(self, chunks.into_remainder())\n'), ["C16", "C05"]),
 ]
 
